@@ -305,6 +305,14 @@ class GC(FileStorageFormatter):
                 dh = self._read_data_header(pos)
                 self.checkData(th, tpos, dh, pos)
 
+                if (dh.oid not in self.reachable
+                        and dh.oid in self.oid2curpos):
+                    # The object is written after the pack time, so it is
+                    # not garbage as of the pack time: keep the revision
+                    # that was current then (an undo of this transaction
+                    # restores it) and whatever that revision refers to.
+                    self.findReachableAtPacktime([dh.oid])
+
                 if dh.back and dh.back < self.packpos:
                     if dh.oid in self.reachable:
                         L = self.reach_ex.setdefault(dh.oid, [])
